@@ -75,6 +75,20 @@ def check_forms(src, extra_cuts, tmpdir, sub='forms'):
         if got != ref:
             raise H.Violation('C17:input-form:%s' % name.split('@')[0].split('[')[0].split('(')[0], dict(case, form=name),
                               'as %s the result is %r, as one string %r' % (name, _short(got), _short(ref)))
+    # the options are part of the function's arguments: the input form must not change how they are applied
+    ref1 = digest_of(src, tolerance=1)
+    for name, make in (('lines', lambda: src.splitlines(True)), ('gen-chars', lambda: (c for c in src)),
+                       ('stringio', lambda: io.StringIO(src))):
+        got = digest_of(make(), tolerance=1)
+        if got != ref1:
+            raise H.Violation('C17:input-form:%s:tolerance=1' % name, dict(case, form=name, tolerance=1),
+                              'with tolerance=1, as %s the result is %r, as one string %r' % (name, _short(got), _short(ref1)))
+    sk = ('e', 'mycode')
+    refs = digest_of(src, skip_envs=sk)
+    got = digest_of(src.splitlines(True), skip_envs=sk)
+    if got != refs:
+        raise H.Violation('C17:input-form:lines:skip_envs', dict(case, form='lines', skip_envs=list(sk)),
+                          'with skip_envs, as lines the result is %r, as one string %r' % (_short(got), _short(refs)))
     if tmpdir and '\r' not in src and '\x00' not in src:
         path = os.path.join(tmpdir, 'doc.tex')
         with open(path, 'w', encoding='utf-8', newline='') as f:
